@@ -263,6 +263,10 @@ let cmpb = cmp (=) string_of_bool
 let cmpvc = cmp vc_eqb show_vc
 
 (* ------------------------------------------------------------------ Map calls, generic in the instance *)
+(* the (value, context) pairs the closures of Map::update received since the last "update" call line (a stack: the update of a nested map
+   runs inside the outer closure) *)
+let closure_args : (sx * sx) list ref = ref []
+let pre_is_this_map (_ : sx) = true
 let map_call i (f : string) (a : sx list) : string option =
   let mi = map_inst i in
   let st = cmap_sx i in
@@ -300,13 +304,31 @@ let map_call i (f : string) (a : sx list) : string option =
         key { c with rval = vs }) (seq r) in
       cmp (=) (fun l -> String.concat "|" (List.map (fun (a, b, c) -> a ^ b ^ c) l))
         (List.sort compare (List.map proj model)) (List.sort compare impl)
-  | "update.closure", _ -> None
+  | "update.closure", [v; c] -> closure_args := (v, c) :: !closure_args; None
   | "update", [s; k; ctx; o] ->
       (* the op the closure produced is taken from the implementation's op; the model
          must agree on the dot, the key and, through the closure call lines, the nested op *)
       let impl = mop_sx i o in
       let nested = match impl with MUp (_, _, op) -> op | _ -> bad "update produced Rm" in
-      cmp (mop_eqb i) (show_mop i) (mupdate i.vo (st s) (n_sx k) (addctx_sx ctx) (fun _ _ -> nested)) impl
+      (* closure calls nest (an update of a nested map runs inside the outer closure): the most recent one is ours *)
+      let seen = !closure_args in
+      closure_args := (match seen with _ :: tl -> tl | [] -> []);
+      (match cmp (mop_eqb i) (show_mop i) (mupdate i.vo (st s) (n_sx k) (addctx_sx ctx) (fun _ _ -> nested)) impl with
+       | Some m -> Some m
+       | None ->
+           (* Map::update hands its closure the value stored under the key (the default when absent) and the add
+              context it was given, unchanged (model: [mupdate vo s k ctx f = MUp (ac_dot ctx) k (f v ctx)]) *)
+           (match seen with
+            | (v, c) :: _ when pre_is_this_map s ->
+                let want_v = (match List.assoc_opt (int_of_n (n_sx k)) (List.map (fun (k', e) -> (int_of_n k', e)) (nmap_to_list (st s).mentries)) with
+                              | Some e -> e.eval | None -> i.vo.v_default) in
+                if not (i.v_dec want_v (i.v_sx v)) then Some ("update: the closure received " ^ i.v_show (i.v_sx v) ^ ", the value under the key is " ^ i.v_show want_v)
+                else
+                  let a1 = addctx_sx ctx and a2 = addctx_sx c in
+                  if not (vc_eqb a1.ac_clock a2.ac_clock && a1.ac_dot = a2.ac_dot) then
+                    Some ("update: the closure received the context " ^ show_vc a2.ac_clock ^ ", update was given " ^ show_vc a1.ac_clock)
+                  else None
+            | _ -> None))
   | "rm", [k; ctx; o] -> cmp (mop_eqb i) (show_mop i) (mrm (n_sx k) (rmctx_sx ctx)) (mop_sx i o)
   | _ -> ignore mi; bad "unknown map call %s/%d" f (List.length a)
 
